@@ -188,6 +188,7 @@ func (g *Generator) generateStructSchemaWithRefs(t reflect.Type) *openapi3.Schem
 		if err := parseJSONSchemaTags(field.Tag, fieldSchema); err != nil {
 			continue
 		}
+		fieldSchema = stringOptionSchema(field, fieldSchema)
 
 		schema.Properties[jsonName] = openapi3.NewSchemaRef("", fieldSchema)
 
@@ -332,6 +333,39 @@ func wellKnownSchema(t reflect.Type) *openapi3.Schema {
 		}
 	}
 	return nil
+}
+
+// stringOptionSchema implements the ",string" option of encoding/json: a string, number or boolean
+// field (or an unnamed pointer to one) carrying the option is encoded inside a JSON string, so its
+// schema is a string. Title and description are kept; the other keywords set by jsonschema tags
+// describe the unquoted Go value and do not apply to the quoted form. Any other field is
+// returned unchanged, as encoding/json ignores the option there.
+func stringOptionSchema(field reflect.StructField, fieldSchema *openapi3.Schema) *openapi3.Schema {
+	quoted := false
+	if parts := strings.Split(field.Tag.Get("json"), ","); len(parts) > 1 {
+		for _, opt := range parts[1:] {
+			if opt == "string" {
+				quoted = true
+			}
+		}
+	}
+	if !quoted {
+		return fieldSchema
+	}
+	ft := field.Type
+	if ft.Name() == "" && ft.Kind() == reflect.Ptr {
+		ft = ft.Elem()
+	}
+	switch ft.Kind() {
+	case reflect.Bool, reflect.String, reflect.Float32, reflect.Float64,
+		reflect.Int, reflect.Int8, reflect.Int16, reflect.Int32, reflect.Int64,
+		reflect.Uint, reflect.Uint8, reflect.Uint16, reflect.Uint32, reflect.Uint64, reflect.Uintptr:
+		quotedSchema := openapi3.NewStringSchema()
+		quotedSchema.Title = fieldSchema.Title
+		quotedSchema.Description = fieldSchema.Description
+		return quotedSchema
+	}
+	return fieldSchema
 }
 
 // getTypeName returns a readable type name for use in $defs.
@@ -499,6 +533,7 @@ func convertStructToSchemaWithDepthLimit(t reflect.Type, visited map[reflect.Typ
 		if err := parseJSONSchemaTags(field.Tag, fieldSchema); err != nil {
 			continue
 		}
+		fieldSchema = stringOptionSchema(field, fieldSchema)
 
 		schema.Properties[jsonName] = openapi3.NewSchemaRef("", fieldSchema)
 
@@ -609,6 +644,7 @@ func convertStructToSchemaWithVisited(t reflect.Type, visited map[reflect.Type]*
 			// Log error but continue processing
 			continue
 		}
+		fieldSchema = stringOptionSchema(field, fieldSchema)
 
 		// Add to properties
 		schema.Properties[jsonName] = openapi3.NewSchemaRef("", fieldSchema)
@@ -1031,6 +1067,8 @@ func (g *NestedRefGenerator) generateStructSchema(t reflect.Type) *openapi3.Sche
 				fieldSchema.Description = desc
 			}
 		}
+
+		fieldSchema = stringOptionSchema(field, fieldSchema)
 
 		// Make field nullable using JSON Schema standard anyOf syntax
 		// This allows JSON null values for proto3 optional message fields
